@@ -724,16 +724,6 @@ func isArrayStringEqual(a []string, b []string) bool {
 	return true
 }
 
-// this methods adds data definitions (container, list, leaf...) back into
-// their parent but resolves all "uses" while doing so. This operation is
-// recursive so the module is the last container to have all it's children
-// complete.
-//
-//	           M
-//	         a1  b1
-//	       c2      d3
-//	order would be:
-//	   Enter M, Enter A1, Enter c2, Leave c2, Leave a2, Enter b1,
 // the cases whose if-feature is false leave the choice
 func (r *resolver) dropDisabledCases(choice *Choice) error {
 	for _, cident := range choice.CaseIdents() {
@@ -766,6 +756,16 @@ func (r *resolver) enterCase(choice *Choice, c *ChoiceCase) error {
 	return err
 }
 
+// this methods adds data definitions (container, list, leaf...) back into
+// their parent but resolves all "uses" while doing so. This operation is
+// recursive so the module is the last container to have all it's children
+// complete.
+//
+//	           M
+//	         a1  b1
+//	       c2      d3
+//	order would be:
+//	   Enter M, Enter A1, Enter c2, Leave c2, Leave a2, Enter b1,
 //	   Enter d3, Leave d3, Leave b1, Leave M
 func (r *resolver) addDefinitions(x HasDataDefinitions, defs []Definition) ([]Definition, error) {
 	var added []Definition
